@@ -7,3 +7,4 @@ open PgmVerif
 #print axioms PgmVerif.C07_forward_law
 #print axioms PgmVerif.C07_rejection_law
 #print axioms PgmVerif.C07_lw_law
+#print axioms PgmVerif.C07_partial_law
